@@ -297,7 +297,7 @@ fn cmd_minimise(m: &BTreeMap<String, String>) {
     }
     if rf.class == "diverge-across-processes" {
         if let Some(b) = rf.plan_b.clone() {
-            ctx.max_trials = 600;
+            ctx.max_trials = 250;
             let (a2, b2) = minimise::minimise_pair(&mut ctx, &rf.plan, &b);
             rf.plan = a2;
             rf.plan_b = Some(b2);
